@@ -74,6 +74,10 @@ func c18templates() []tmpl {
 		{"SUBSCRIBE-2", 0x82, cat([]byte{0, 8}, lp("h/a"), []byte{0}, lp("h/+"), []byte{2}), []int{2, 8}, 0},
 		{"UNSUBSCRIBE-1", 0xa2, cat([]byte{0, 9}, lp("h/#")), []int{2}, 0},
 		{"UNSUBSCRIBE-2", 0xa2, cat([]byte{0, 10}, lp("h/a"), lp("h/+")), []int{2, 7}, 0},
+		// the same on the filter another client (the witness) holds: what one client does to its own subscriptions, held
+		// or not, is no business of anybody else's
+		{"UNSUBSCRIBE-others-filter", 0xa2, cat([]byte{0, 11}, lp("wit/#")), []int{2}, 0},
+		{"SUBSCRIBE-others-filter", 0x82, cat([]byte{0, 12}, lp("wit/#"), []byte{1}), []int{2}, 0},
 		{"PINGREQ", 0xc0, nil, nil, -1},
 		{"DISCONNECT", 0xe0, nil, nil, -1},
 		{"CONNACK", 0x20, []byte{0, 0}, nil, -1},
@@ -391,5 +395,94 @@ func TestC18SplitPackets(t *testing.T) {
 		func(rep *vk.Report) {
 			rep.Rule = "a valid PUBLISH of 200 / 20000 payload bytes (2- and 3-byte remaining length) is sent in two pieces split after 1, 2, 3 or 10 bytes while 1, 25 or 45 other clients connect in between (more than the 20 connection set-up workers); the subscriber must receive it intact"
 			rep.Floor("paths", 10, rep.Nontrivial)
+		})
+}
+
+// TestC18WorkerStarvation: one failed publish is survivable by construction; here more clients than the broker has publish
+// workers (20) each send a PUBLISH whose announced body (21 MB, more than the message log takes) is cut off by closing the
+// connection. However each of them ends, the witnesses must still be able to publish and receive afterwards.
+func TestC18WorkerStarvation(t *testing.T) {
+	type sp struct {
+		Clients int   `json:"hostile_clients"`
+		Qos     int32 `json:"publish_qos"`
+		Whole   bool  `json:"whole_body_sent"`
+	}
+	paths := []sp{{22, 0, false}, {22, 1, false}, {45, 1, false}}
+	if vk.Thorough() {
+		paths = append(paths, sp{22, 2, false}, sp{22, 1, true})
+	}
+	RunPaths(t, "C18", "C18/publish-worker-starvation", "TestC18WorkerStarvation", len(paths), vk.Pick(5*time.Minute, 15*time.Minute),
+		func(t *testing.T, i int, rep *vk.Report) {
+			p := paths[i]
+			RunBubble(t, fmt.Sprintf("p%d", i), func(t *testing.T) {
+				w := NewWorld(t, 1)
+				defer w.Close()
+				viol := func(sig, format string, a ...any) {
+					rep.Violate(vk.Violation{Sig: sig, Msg: fmt.Sprintf("%+v: ", p) + fmt.Sprintf(format, a...), Replay: p})
+				}
+				wsub := w.NewClient("witness-sub", 1, AckAll)
+				wpub := w.NewClient("witness-pub", 1, AckAll)
+				if wsub.Connect(ConnectOpts{ClientID: "wsub", KeepAlive: 600}) != 0 || wpub.Connect(ConnectOpts{ClientID: "wpub", KeepAlive: 600}) != 0 {
+					rep.HarnessError("witness connect failed")
+					return
+				}
+				wsub.Subscribe(1, 1, "wit/#")
+				wsub.Subscribe(2, 0, "big/#") // the oversized publishes have a destination: they reach the log, which refuses them
+				w.Step()
+				const announced = 21 << 20
+				for k := 0; k < p.Clients; k++ {
+					h := w.NewClient(fmt.Sprintf("hostile%d", k), 1, AckNone)
+					if h.Connect(ConnectOpts{ClientID: fmt.Sprintf("hostile%d", k), KeepAlive: 30}) != 0 {
+						viol("c18-bystander-connect-failed", "connection %d could not connect any more", k)
+						return
+					}
+					body := lp("big/x")
+					if p.Qos > 0 {
+						body = append(body, 0, byte(k+1))
+					}
+					first := byte(0x30 | p.Qos<<1)
+					pkt := append(append([]byte{first}, encodeRemLen(announced)...), body...)
+					if p.Whole {
+						pkt = append(pkt, make([]byte, announced-len(body))...)
+					} else {
+						pkt = append(pkt, []byte("only this much of the body ever arrives")...)
+					}
+					h.SendRaw(pkt)
+					w.Step()
+					h.Drop()
+					w.Step()
+				}
+				w.Idle(2 * time.Second)
+				Observe(w, rep)
+				wpub.Publish("wit/x", "still-alive", 1, false, 77)
+				w.Step()
+				w.Idle(10 * time.Second)
+				if wsub.BrokerClosed() || wpub.BrokerClosed() {
+					viol("c18-bystander-disconnected", "a witness connection was closed by the broker (publisher closed=%v, subscriber closed=%v)", wpub.BrokerClosed(), wsub.BrokerClosed())
+					return
+				}
+				if !wpub.Has("PUBACK(77)") {
+					viol("c18-witness-publish-not-acknowledged", "after %d clients each sent one cut-off oversized PUBLISH the witness publisher got no PUBACK within 10 s", p.Clients)
+					return
+				}
+				got := false
+				for _, pk := range wsub.Publishes() {
+					if string(pk.Topic) == "wit/x" && string(pk.Payload) == "still-alive" {
+						got = true
+					}
+				}
+				if !got {
+					viol("c18-witness-not-delivered", "after %d clients each sent one cut-off oversized PUBLISH the witness subscriber did not receive the witness publish within 10 s", p.Clients)
+					return
+				}
+				MarkNontrivial(fmt.Sprint(p))
+				rep.Nontrivial++
+				rep.Sample(p)
+			})
+		},
+		func(i int) any { return paths[i] },
+		func(rep *vk.Report) {
+			rep.Rule = "22 or 45 clients (the broker runs 20 publish workers and 20 connection set-up workers) each send one PUBLISH announcing a 21 MB body (above what the message log accepts) on a topic with a subscriber and close the connection after a few body bytes (thorough: also the whole body); afterwards a witness QoS 1 publish must be acknowledged and delivered within 10 s"
+			rep.Floor("paths", 3, rep.Nontrivial)
 		})
 }
